@@ -13,6 +13,7 @@
      RFC 8018 A.2 - A.4, RFC 7914 7     EncryptedPrivateKeyInfo with PBES2: PBKDF2 (salt, iterationCount, optional keyLength,
                                         prf) or scrypt parameters, the CBC ciphers with their IV; and its OPENING:
                                         KDF, DES-EDE3-CBC / AES-CBC decryption, RFC 5652 6.3 unpadding, AES-GCM opening
+     RFC 8018 6.1, A.3                  PBES1 (pbeWithMD5/SHA1AndDES/RC2-CBC): import-only schemes of the library, opened here too
      RFC 1421 / OpenSSL                 "Proc-Type: 4,ENCRYPTED" / "DEK-Info: DES-EDE3-CBC,<IV>" PEM encryption with the
                                         EVP_BytesToKey(MD5, count 1) key derivation, opened here as well
      SEC 1 2.3.3, RFC 8032 5.1.2 / 5.2.2, RFC 7748 5   point encodings
@@ -62,6 +63,10 @@ OidHmacSha3t224 == <<6, 9, 96, 134, 72, 1, 101, 3, 4, 2, 13>>       \* 2.16.840.
 OidHmacSha3t256 == <<6, 9, 96, 134, 72, 1, 101, 3, 4, 2, 14>>
 OidHmacSha3t384 == <<6, 9, 96, 134, 72, 1, 101, 3, 4, 2, 15>>
 OidHmacSha3t512 == <<6, 9, 96, 134, 72, 1, 101, 3, 4, 2, 16>>
+OidPbeMd5Des == <<6, 9, 42, 134, 72, 134, 247, 13, 1, 5, 3>>        \* 1.2.840.113549.1.5.3   pbeWithMD5AndDES-CBC
+OidPbeMd5Rc2 == <<6, 9, 42, 134, 72, 134, 247, 13, 1, 5, 6>>        \* 1.2.840.113549.1.5.6   pbeWithMD5AndRC2-CBC
+OidPbeSha1Des == <<6, 9, 42, 134, 72, 134, 247, 13, 1, 5, 10>>      \* 1.2.840.113549.1.5.10  pbeWithSHA1AndDES-CBC
+OidPbeSha1Rc2 == <<6, 9, 42, 134, 72, 134, 247, 13, 1, 5, 11>>      \* 1.2.840.113549.1.5.11  pbeWithSHA1AndRC2-CBC
 OidDesEde3Cbc == <<6, 8, 42, 134, 72, 134, 247, 13, 3, 7>>          \* 1.2.840.113549.3.7
 OidAes128Cbc == <<6, 9, 96, 134, 72, 1, 101, 3, 4, 1, 2>>           \* 2.16.840.1.101.3.4.1.2
 OidAes192Cbc == <<6, 9, 96, 134, 72, 1, 101, 3, 4, 1, 22>>
@@ -345,14 +350,43 @@ EpkiCost(e) == IF e.k.kdf = "pbkdf2" THEN e.k.count * ((e.cipher.klen + KD!Diges
 DeriveKey(e, pw) == IF e.k.kdf = "pbkdf2" THEN KD!Pbkdf2([kind |-> "hmac", name |-> e.k.prf, d |-> 0], pw, e.k.salt, e.k.count, e.cipher.klen)
                     ELSE KD!Scrypt(pw, e.k.salt, e.k.count, e.k.r, e.k.p, e.cipher.klen)
 \* RFC 8018 6.2.2: derive, decrypt, remove the RFC 5652 padding  /  SP 800-38D: the last 16 octets are the tag
-CbcOpen(alg, key, iv, ct, bs) ==
-   LET pt == CM!CbcDec(CM!Ctx(alg, key, 0), iv, ct)  u == PD!UnpadFast(pt, bs, "pkcs7") IN
+CbcOpenP(alg, par, key, iv, ct, bs) ==
+   LET pt == CM!CbcDec(CM!Ctx(alg, key, par), iv, ct)  u == PD!UnpadFast(pt, bs, "pkcs7") IN
    IF u[1] = "ok" THEN Good(u[2]) ELSE Bad("padding")
+CbcOpen(alg, key, iv, ct, bs) == CbcOpenP(alg, 0, key, iv, ct, bs)
 EpkiOpen(e, pw) ==
    LET key == DeriveKey(e, pw) IN
    IF e.cipher.mode = "cbc" THEN CbcOpen(e.cipher.alg, key, e.iv, e.ct, e.cipher.bs)
    ELSE LET n == Len(e.ct)  r == GA!GcmOpen(key, e.iv, <<>>, SubSeq(e.ct, 1, n - 16), SubSeq(e.ct, n - 15, n), 16) IN
         IF r[1] = "ok" THEN Good(r[2]) ELSE Bad("tag")
+
+(* ------------------------------------------------------------------ PBES1 (RFC 8018 6.1, A.3): EncryptedPrivateKeyInfo { { pbeWith..., PBEParameter { salt OCTET STRING (SIZE(8)), iterationCount } }, encryptedData } *)
+Pbes1Of(oid) == CASE oid = OidPbeMd5Des -> [hash |-> "MD5", alg |-> "des", par |-> 0] [] oid = OidPbeMd5Rc2 -> [hash |-> "MD5", alg |-> "arc2", par |-> 64]
+                  [] oid = OidPbeSha1Des -> [hash |-> "SHA1", alg |-> "des", par |-> 0] [] oid = OidPbeSha1Rc2 -> [hash |-> "SHA1", alg |-> "arc2", par |-> 64]
+                  [] OTHER -> [hash |-> "", alg |-> "", par |-> 0]
+IsPbes1(der) == LET s == SeqOf(der, {2}, "EncryptedPrivateKeyInfo") IN
+   IsGood(s) /\ ~s[2][1].int /\ (LET a == AlgId(s[2][1].b, "encryptionAlgorithm") IN IsGood(a) /\ Pbes1Of(a[2].oid).hash # "")
+EpkiPbes1(der) ==
+   LET s == SeqOf(der, {2}, "EncryptedPrivateKeyInfo") IN
+   IF ~IsGood(s) THEN s ELSE LET m == s[2] IN
+   IF m[1].int \/ m[2].int \/ m[2].b[1] # 4 THEN Bad("EncryptedPrivateKeyInfo: member types") ELSE
+   LET a == AlgId(m[1].b, "encryptionAlgorithm")  ct == SD("DerOctetString", m[2].b) IN
+   IF ~IsGood(a) THEN a ELSE IF ~IsGood(ct) THEN Bad("encryptedData: " \o ct[2])
+   ELSE IF Pbes1Of(a[2].oid).hash = "" THEN Bad("encryptionAlgorithm is not a PBES1 scheme")
+   ELSE IF a[2].np # 1 \/ a[2].par.int THEN Bad("PBEParameter missing") ELSE
+   LET ps == SeqOf(a[2].par.b, {2}, "PBEParameter") IN
+   IF ~IsGood(ps) THEN ps
+   ELSE IF ps[2][1].int \/ ps[2][1].b[1] # 4 \/ ~ps[2][2].int \/ ps[2][2].neg THEN Bad("PBEParameter: member types") ELSE
+   LET salt == SD("DerOctetString", ps[2][1].b) IN
+   IF ~IsGood(salt) THEN Bad("PBEParameter.salt: " \o salt[2])
+   ELSE IF Len(salt[2].payload) # 8 THEN Bad("PBEParameter.salt is not eight octets")
+   ELSE IF SmallNat(ps[2][2]) < 1 THEN Bad("PBEParameter.iterationCount")
+   ELSE Good([scheme |-> Pbes1Of(a[2].oid), salt |-> salt[2].payload, count |-> SmallNat(ps[2][2]), ct |-> ct[2].payload])
+\* 6.1.2: DK = PBKDF1(P, S, c, 16), K = DK<0..7>, IV = DK<8..15>; RC2 with 64 effective key bits
+Pbes1Open(e, pw) ==
+   IF Len(e.ct) = 0 \/ Len(e.ct) % 8 # 0 THEN Bad("ciphertext is not a positive number of blocks") ELSE
+   LET dk == KD!Pbkdf1([kind |-> "real", name |-> e.scheme.hash, d |-> 0], pw, e.salt, e.count, 16) IN
+   CbcOpenP(e.scheme.alg, e.scheme.par, SubSeq(dk, 1, 8), SubSeq(dk, 9, 16), e.ct, 8)
 
 (* ------------------------------------------------------------------ PEM *)
 \* the clear armour is PemCodec!PemDecodeCanonical.  The encrypted one (RFC 1421 4.6.1.1, 4.6.1.3; cipher name and key derivation
